@@ -24,7 +24,8 @@
       rename   : PUT staging ; RENAME-IF-ABSENT staging->final ; on AlreadyExists DELETE staging
       lock     : LOCK ; HEAD final ; PUT final ; UNLOCK(ok)      (present => UNLOCK(false), conflict)
       external : PUT staging ; EXT.put_if_not_exists(v, staging) ; any error => EXT.get(v): own staging =>
-                 finalize, else DELETE staging, conflict
+                 finalize; final path => HEAD+GET final, own transaction file => finalize; else DELETE
+                 staging, conflict
                  finalize = COPY staging->final (NotFound => HEAD final, done) ;
                             EXT.put_if_exists(v, final) ; DELETE staging
       unsafe   : PUT final      (modelled; exempt from C02)
@@ -42,9 +43,15 @@
       "ExtLostTreatedAsConflict"  (repaired in /repo) an error of EXT.put_if_not_exists whose effect WAS
                                   applied (lost response) is treated as a conflict: the staging manifest
                                   is deleted although the external store now points to it (DESIGN 8 #12)
-      "ExtGetComparesPathOnly"    the check added by the repair compares the path in the external store
+      "ExtGetComparesPathOnly"    (first version of the repair) the path in the external store is compared
                                   with the own staging path only: a commit that a reader has meanwhile
                                   finalized is still taken for a lost race and is committed again
+      "ExtStagingHeadHeuristic"   (second version of the repair) when the store holds the final path, "is our
+                                  staging manifest gone?" decided whether the commit was ours; wrong whenever
+                                  a finalizer has flipped the store but not yet deleted the staging manifest
+      "ExtGetErrorDeletesStaging" (as built now) an error of EXT.get / of reading the final manifest in that
+                                  branch is treated as "not ours": the staging manifest is deleted.  Together
+                                  with a lost response of the put this is the old defect again (double fault)
       "DetachedListingPanics"     resolving the latest version by listing panics when a detached
                                   manifest is listed on a V2-named table (fixed in /repo; kept so that
                                   a regression is recognised)
@@ -84,7 +91,7 @@ External == cfg.handler = "external"
 NoFin == <<0, 0>>
 Blank == [pc |-> "none", readV |-> 0, seen |-> 0, target |-> 0, attempt |-> 0, cur |-> 0,
           res |-> "none", ver |-> 0, aux |-> 0, txn |-> FALSE, fin |-> NoFin, cont |-> "none",
-          rvq |-> 0, cont2 |-> "none", lk |-> "none", todo |-> <<>>, hr |-> 0]
+          rvq |-> 0, cont2 |-> "none", lk |-> "none", todo |-> <<>>, hr |-> 0, auxn |-> 0]
 
 Terminal(a) == ac[a].pc \in {"none", "done", "crashed"}
 Role(a) == LET o == cfg.op[a] IN
@@ -132,12 +139,21 @@ CommitPc    == CASE cfg.handler = "condput"  -> "c_put"
                  [] cfg.handler = "external" -> "c_stage"
                  [] cfg.handler = "lock"     -> "c_lock"
 
+\* Are the rows written by the setup still in version v?  (the delete operation of writer a removes
+\* the setup row with key a-1 and writes a deletion file only if that row is there)
+RECURSIVE SetupRowsIn(_)
+SetupRowsIn(v) ==
+  IF v <= 1 \/ FinalP(v) \notin DOMAIN obj THEN TRUE
+  ELSE LET op == OpOfContent(obj[FinalP(v)]) IN
+       IF op = "overwrite" THEN FALSE ELSE IF op = "restore" THEN TRUE ELSE SetupRowsIn(v - 1)
+AuxNeed(a, v) == IF cfg.op[a] = "delete" /\ ~SetupRowsIn(v) THEN 0 ELSE AuxN(cfg.op[a])
+
 \* after the handle is open at version v
 AfterOpen(a, r, v) ==
   LET r1 == [r EXCEPT !.readV = v, !.seen = v] IN
   CASE Role(a) = "reader" -> [Done(r1, "ok") EXCEPT !.ver = v]
     [] Role(a) = "audit"  -> [r1 EXCEPT !.pc = "a_list"]
-    [] OTHER -> [r1 EXCEPT !.pc = IF AuxN(cfg.op[a]) > 0 THEN "w_aux" ELSE "w_list"]
+    [] OTHER -> [r1 EXCEPT !.auxn = AuxNeed(a, v), !.pc = IF AuxNeed(a, v) > 0 THEN "w_aux" ELSE "w_list"]
 
 \* after a version was resolved (cont2 says why it was being resolved)
 AfterResolve(a, r) ==
@@ -350,7 +366,7 @@ WAux(a, f) ==
   /\ Same(<<obj, ext, lease, owner, okRet>>)
   /\ SetA(a, IF out # "ok" THEN Done([r EXCEPT !.aux = IF out = "lost" THEN @ + 1 ELSE @], "error")
              ELSE [r EXCEPT !.aux = @ + 1,
-                            !.pc = IF r.aux + 1 < AuxN(cfg.op[a]) THEN "w_aux"
+                            !.pc = IF r.aux + 1 < r.auxn THEN "w_aux"
                                    ELSE IF cfg.op[a] = "detached" THEN "w_txn" ELSE "w_list"])
 
 \* load_and_sort_new_transactions + TransactionRebase: list, read the newer manifests, check conflicts
@@ -464,25 +480,57 @@ CExtPut(a, f) ==
              ELSE IF "ExtLostTreatedAsConflict" \in cfg.dev THEN [r EXCEPT !.pc = "c_delst"]
              ELSE [r EXCEPT !.pc = "c_extget"])
 
-\* EXT.get(v) after a failed put: our own staging path => the commit happened, finalize it.
-\* Deviation "ExtGetComparesPathOnly" (as built after the repair): only the *path* is compared, so a
-\* commit of ours that somebody else has already finalized (the store now holds the final path) is
-\* still taken for a lost race.  Intended: the writer recognises its own manifest at version v.
+\* EXT.get(v) after a failed put:
+\*   our own staging path            => the commit happened: finalize it
+\*   the final path of v             => read that manifest (HEAD final, GET final) and compare its
+\*                                      transaction file name with ours (next action)
+\*   anything else                   => a lost race: DELETE staging, conflict
+\*   an error of EXT.get             => intended: give up with an error, leaving the staging manifest alone
+\*                                      as built ("ExtGetErrorDeletesStaging"): DELETE staging, conflict
+\* Older deviations: "ExtGetComparesPathOnly": the final path is a lost race too.
 CExtGet(a, f) ==
   LET r == ac[a]
       found == ExtHas(r.target)
       p == IF found THEN ext[r.target] ELSE <<"none", 0, 0>>
-      mine == found /\ p = StagingP(r.target, r.cur)
-      mineFinalized == found /\ IsFinal(p) /\ FinalP(r.target) \in DOMAIN obj /\ obj[FinalP(r.target)] = r.cur IN
+      mine == found /\ p = StagingP(r.target, r.cur) IN
   /\ r.pc = "c_extget" /\ f \in {"ok", "fail"}
   /\ Call(a, f, "ext_get", IF f = "ok" /\ found THEN p[1] ELSE "other", r.target, -1,
           IF f = "fail" THEN "fail" ELSE IF found THEN "ok" ELSE "notfound")
-  /\ Same(<<obj, ext, lease, owner>>)
-  /\ okRet' = IF f = "ok" /\ mineFinalized /\ "ExtGetComparesPathOnly" \notin cfg.dev THEN OkRetWith(a, r) ELSE okRet
-  /\ SetA(a, IF f = "ok" /\ mine
+  /\ Same(<<obj, ext, lease, owner, okRet>>)
+  /\ SetA(a, IF f = "fail" /\ "ExtGetErrorDeletesStaging" \notin cfg.dev THEN Done(r, "error")
+             ELSE IF f = "ok" /\ mine
              THEN [r EXCEPT !.fin = <<r.target, r.cur>>, !.cont = "commit", !.pc = "f_copy"]
-             ELSE IF f = "ok" /\ mineFinalized /\ "ExtGetComparesPathOnly" \notin cfg.dev
-             THEN SuccessR(a, r)
+             ELSE IF f = "ok" /\ found /\ IsFinal(p) /\ "ExtGetComparesPathOnly" \notin cfg.dev
+             THEN [r EXCEPT !.pc = IF "ExtStagingHeadHeuristic" \in cfg.dev THEN "c_headst" ELSE "c_headfin"]
+             ELSE [r EXCEPT !.pc = "c_delst"])
+
+\* read_manifest(final path of v): a direct HEAD, then a GET (not an interleaving point).  The manifest
+\* names the transaction file of the attempt that built it, so the writer recognises its own manifest.
+\*   ours => finalize (COPY finds the staging manifest or not: both are fine) ; not ours => lost race
+\*   error => intended: give up with an error ; as built ("ExtGetErrorDeletesStaging"): lost race
+CHeadFinalOwn(a, f) ==
+  LET r == ac[a]
+      out == HeadOut(FinalP(r.target), f)
+      mineFinal == FinalP(r.target) \in DOMAIN obj /\ obj[FinalP(r.target)] = r.cur IN
+  /\ r.pc = "c_headfin" /\ f \in {"ok", "fail"}
+  /\ Call(a, f, "head", "final", r.target, -1, out)
+  /\ Same(<<obj, ext, lease, owner, okRet>>)
+  /\ SetA(a, IF out = "ok" /\ mineFinal
+             THEN [r EXCEPT !.fin = <<r.target, r.cur>>, !.cont = "commit", !.pc = "f_copy"]
+             ELSE IF out # "ok" /\ "ExtGetErrorDeletesStaging" \notin cfg.dev THEN Done(r, "error")
+             ELSE [r EXCEPT !.pc = "c_delst"])
+
+\* (second version of the repair, deviation "ExtStagingHeadHeuristic") HEAD of the own staging manifest
+\* when the store already holds the final path: NotFound => ours; found => lost race.  Wrong whenever a
+\* finalizer of our commit has flipped the store but not yet deleted the staging manifest.
+CHeadStaging(a, f) ==
+  LET r == ac[a]
+      out == HeadOut(StagingP(r.target, r.cur), f) IN
+  /\ r.pc = "c_headst" /\ f \in {"ok", "fail"}
+  /\ Call(a, f, "head", "staging", r.target, -1, out)
+  /\ Same(<<obj, ext, lease, owner, okRet>>)
+  /\ SetA(a, IF out = "notfound"
+             THEN [r EXCEPT !.fin = <<r.target, r.cur>>, !.cont = "commit", !.pc = "f_copy"]
              ELSE [r EXCEPT !.pc = "c_delst"])
 
 \* ---- CommitLock handler ----------------------------------------------------------------------------
@@ -543,7 +591,7 @@ Step(a, f, c) ==
   \/ AList(a, f)
   \/ WAux(a, f) \/ WList(a, f) \/ WTxn(a, f)
   \/ CPutIfAbsent(a, f, c) \/ CPut(a, f, c) \/ CStage(a, f, c) \/ CRename(a, f) \/ CDelStaging(a, f)
-  \/ CExtPut(a, f) \/ CExtGet(a, f) \/ CLock(a, f) \/ CHead(a, f) \/ CUnlock(a, f)
+  \/ CExtPut(a, f) \/ CExtGet(a, f) \/ CHeadStaging(a, f) \/ CHeadFinalOwn(a, f) \/ CLock(a, f) \/ CHead(a, f) \/ CUnlock(a, f)
 
 \* ghost bookkeeping, evaluated after obj' and ext' are determined
 Ghost ==
@@ -578,6 +626,8 @@ N_CRename == \E a \in Actors, f \in Faults : CRename(a, f) /\ cfg' = cfg /\ Ghos
 N_CDelStaging == \E a \in Actors, f \in Faults : CDelStaging(a, f) /\ cfg' = cfg /\ Ghost
 N_CExtPut == \E a \in Actors, f \in Faults : CExtPut(a, f) /\ cfg' = cfg /\ Ghost
 N_CExtGet == \E a \in Actors, f \in Faults : CExtGet(a, f) /\ cfg' = cfg /\ Ghost
+N_CHeadStaging == \E a \in Actors, f \in Faults : CHeadStaging(a, f) /\ cfg' = cfg /\ Ghost
+N_CHeadFinalOwn == \E a \in Actors, f \in Faults : CHeadFinalOwn(a, f) /\ cfg' = cfg /\ Ghost
 N_CLock == \E a \in Actors, f \in Faults : CLock(a, f) /\ cfg' = cfg /\ Ghost
 N_CHead == \E a \in Actors, f \in Faults : CHead(a, f) /\ cfg' = cfg /\ Ghost
 N_CUnlock == \E a \in Actors, f \in Faults : CUnlock(a, f) /\ cfg' = cfg /\ Ghost
@@ -609,6 +659,8 @@ Next ==
   \/ N_CDelStaging
   \/ N_CExtPut
   \/ N_CExtGet
+  \/ N_CHeadStaging
+  \/ N_CHeadFinalOwn
   \/ N_CLock
   \/ N_CHead
   \/ N_CUnlock
@@ -693,8 +745,8 @@ DetachedNeverLatest ==
 NoTornWrite ==
   /\ \A v \in Visible : LET c == ContentAt(v) IN
         c # 0 /\ c \in DOMAIN owner /\ owner[c] # 0 =>
-            ac[owner[c]].aux >= AuxN(cfg.op[owner[c]])
-  /\ \A p \in DOMAIN obj : IsDetached(p) => ac[owner[obj[p]]].aux >= AuxN(cfg.op[owner[obj[p]]])
+            ac[owner[c]].aux >= ac[owner[c]].auxn
+  /\ \A p \in DOMAIN obj : IsDetached(p) => ac[owner[obj[p]]].aux >= ac[owner[obj[p]]].auxn
 
 \* C01: one write makes exactly one version (the contents of two visible versions never stem from the
 \*      same writer; every writer performs one operation in this model)
